@@ -628,7 +628,11 @@ def run_C11(run):
     else: run.cov["constants_translated"] = out.strip()
     run.prove(gens + [gc], [], ["C11/P_C11_real.v", "C11/P_C11_nan.v", "C11/P_C11_round.v", "C11/P_C11_consts.v"], "C11/Properties_C11.v", timeout=900)
     run.run_corr("impl_C11.cpp", [run.seed, run.tier], flags=["-DNDEBUG"])
-    fails = oracle_sweep(run, "C11", [("all", ["-pthread", "-DNDEBUG"]), ("simd_avx2", ["-pthread", "-DNDEBUG"] + SIMD_AVX2[1]), ("simd_sse2", ["-pthread", "-DNDEBUG"] + SIMD_SSE2[1])], run.tier, opt="-O1")
+    fails = oracle_sweep(run, "C11", [("all", ["-pthread", "-DNDEBUG"])], run.tier, opt="-O1")
+    # the SIMD builds always run the quick corpus: the complete 2^32 sweep three times over takes 18 minutes and belongs to the pure build
+    cases_all = run.cov.get("oracle_cases", 0)
+    fails += oracle_sweep(run, "C11", [("simd_avx2", ["-pthread", "-DNDEBUG"] + SIMD_AVX2[1]), ("simd_sse2", ["-pthread", "-DNDEBUG"] + SIMD_SSE2[1])], "quick", opt="-O1")
+    run.cov["oracle_cases"] = cases_all + run.cov.get("oracle_cases", 0)
     run.fails = run.triage(fails)
     run.assumptions = ["traced functions: real-number semantics (exact arithmetic; floor/ceil/trunc/round are Flocq's Zfloor/Zceil/Ztrunc/ZnearestA); the rounding of each float operation (e.g. fract(-1e-8f) = 1) is outside the theorems and is covered by the oracle, which recomputes the GLSL formula in the same type",
                        "NaN semantics for fmin/fmax/fclamp: a value is a real number or NaN; infinities and signed zeros are not distinguished (oracle: the full special-value lattice incl. +-0, +-inf, NaN to the 4th power)",
